@@ -63,6 +63,7 @@ def backward_euler(dae: nDAE,
     T[0] = t0
 
     p = dae.p
+    broke = False
     while T_end - tt > abs(dt) / 10:
         My0 = dae.M @ y0
         ae = nAE(lambda y_, p_: dae.M @ y_ - My0 - dt * dae.F(t0 + dt, y_, p_),
@@ -73,6 +74,11 @@ def backward_euler(dae: nDAE,
         y1 = sol.y
         stats.ndecomp = stats.ndecomp + sol.stats.nstep
         stats.nfeval = stats.nfeval + sol.stats.nstep
+        if not sol.stats.succeed:
+            # the step is not accepted: y1 does not satisfy the step equation
+            print(f"Backward Euler broke at time={tt} due to non-convergence")
+            broke = True
+            break
 
         tt = tt + dt
         nt = nt + 1
@@ -88,5 +94,6 @@ def backward_euler(dae: nDAE,
     if opt.pbar:
         pbar.close()
     stats.nstep = nt
+    stats.succeed = not broke
 
     return daesol(T, Y, stats=stats)
